@@ -570,6 +570,13 @@ def _methods_to_closures(tree: ast.Module, modname: str, known: Set[str], stats:
                     and st.targets[0].attr == st.value.id:
                 continue
             init.body[i_] = G().visit(st)
+        # a closure nobody reaches through the instance needs no attribute
+        for nm_ in names:
+            if not any(isinstance(n, ast.Attribute) and n.attr == nm_ and isinstance(n.ctx, ast.Load) for n in ast.walk(tree)):
+                for st in list(init.body):
+                    if isinstance(st, ast.Assign) and len(st.targets) == 1 and isinstance(st.targets[0], ast.Attribute) and st.targets[0].attr == nm_ \
+                            and isinstance(st.value, ast.Name) and st.value.id == nm_:
+                        init.body.remove(st)
         # forwarding stores nobody reads any more
         for attr, p_ in fwd.items():
             if not any(isinstance(n, ast.Attribute) and n.attr == attr and isinstance(n.ctx, ast.Load) for n in ast.walk(tree)):
